@@ -916,6 +916,21 @@ def rule_grammar_guards(col, facts):
             col.check(R, "%s:prefix-after-one-zero" % last_seg(fname), ok,
                       "the base-prefix character is looked for without having consumed exactly one leading `0` (skip_zeros() == 1 / one read_if_value_cased(b'0')): `00x1F` is accepted, and the integer and float parsers disagree", f.loc(f.blocks[bb]["ts"]))
     col.floor(R, "base-prefix look-ups", n, 3)
+    # (c) with no_integer_leading_zeros more than one leading zero is an error whatever follows
+    for fname in ("lexical_parse_integer::algorithm::algorithm_complete", "lexical_parse_integer::algorithm::algorithm_partial"):
+        f = facts.fn(fname)
+        ok = False
+        for bb, v, sp in error_sites(f):
+            if v != "InvalidLeadingZeros":
+                continue
+            for _d, e, p in path_conditions(f, bb):
+                e = strip_casts(e)
+                if e[0] == "bin" and any(last_seg(x[1]) == "skip_zeros" for x in expr_calls(e[2])) and strip_casts(e[3])[0] == "k":
+                    k = strip_casts(e[3])[1]
+                    if (e[1] == "Gt" and k == 1 and p is True) or (e[1] == "Ge" and k == 2 and p is True) or (e[1] == "Le" and k == 1 and p is False) or (e[1] == "Lt" and k == 2 and p is False):
+                        ok = True
+        col.check(R, "%s:several-leading-zeros" % last_seg(fname), ok,
+                  "no Error::InvalidLeadingZeros site is guarded by `more than one zero was skipped`: under no_integer_leading_zeros `00`, `000` are accepted as 0", f.loc())
 
 
 # ---------------------------------------------------------------------------------------------
@@ -2024,3 +2039,50 @@ def rule_int_pow_exact(col, facts):
         col.check(R, f.short.replace(PF, "") + ":integer-power", not floaty and any(c in ("wrapping_pow", "pow", "checked_pow") for c in calls),
                   "int_pow_fast_path computes radix^k with %s: beyond 2^53 a floating-point power is not the exact integer the big-integer slow path multiplies with" % (floaty or calls), f.loc())
     col.floor(R, "int_pow_fast_path implementations (compact)", n, 1)
+
+
+def rule_pattern_before_input(col, facts):
+    """ORD-match (special strings): shared::starts_with / starts_with_uncased advance the *input* iterator
+    (whose next() moves the shared cursor) only after the pattern iterator yielded another byte.  Advancing
+    both first consumes one input byte past a complete match, so `NaNx` is read as a complete NaN."""
+    R = "ORD-match"
+    n = 0
+    for name in ("starts_with", "starts_with_uncased"):
+        f = facts.fn(PF + "shared::" + name)
+        xs = [(bb, a) for bb, c, a, d, t in f.calls() if last_seg(callee_name(c)) == "next"]
+        x_calls = [bb for bb, a in xs if G.root(op_expr(f, a[0])) == ("arg", 1, f.names.get(1, "_1")) or strip_casts(op_expr(f, a[0]))[-1:] == ("x",) or "x" == f.names.get(G.root(op_expr(f, a[0]))[1] if isinstance(G.root(op_expr(f, a[0])), tuple) and len(G.root(op_expr(f, a[0]))) > 1 else -1)]
+        col.check(R, name + ":anchor", len(xs) == 2 and len(x_calls) == 1, "expected one next() on each of the two iterators, found %d (%d on the input)" % (len(xs), len(x_calls)), f.loc())
+        for bb in x_calls:
+            n += 1
+            ok = False
+            for _d, e, p in path_conditions(f, bb):
+                e = strip_casts(e)
+                ycall = [c for c in expr_calls(e) if last_seg(c[1]) == "next"]
+                if not ycall:
+                    continue
+                if e[0] == "call" and last_seg(e[1]) == "is_none" and p is False:
+                    ok = True
+                if e[0] == "call" and last_seg(e[1]) == "is_some" and p is True:
+                    ok = True
+                if e[0] == "discr" and (p == ("eq", 1) or (isinstance(p, tuple) and p[0] == "ne" and 1 not in p[1])):
+                    ok = True
+            col.check(R, name + ":input-after-pattern", ok,
+                      "the input iterator is advanced without the pattern having yielded a byte first: a full match consumes one extra input byte (the cursor is shared with the caller)", f.loc(f.blocks[bb]["ts"]))
+    col.floor(R, "input next() calls in the special-string matchers", n, 2)
+
+
+def rule_special_trailing_trim(col, facts):
+    """MPT-trim (special strings): after a special string matched, is_special_eq peeks the special iterator once
+    more before reading the cursor: with `special_digit_separator` that peek is what skips separators after the
+    last letter, so that `nan_` is a complete match (count == length) and the partial count includes them."""
+    R = "MPT-trim"
+    f = facts.fn(PF + "parse::is_special_eq")
+    calls = [(bb, last_seg(callee_name(c))) for bb, c, a, d, t in f.calls()]
+    n = 0
+    for bb, cn in calls:
+        if cn != "cursor":
+            continue
+        n += 1
+        ok = any(c2 == "peek" and f.dominates(b2, bb) and any(c3.startswith("starts_with") and f.dominates(b3, b2) for b3, c3 in calls) for b2, c2 in calls)
+        col.check(R, "is_special_eq:cursor#%d" % n, ok, "the matched length is read (cursor()) without the trailing peek() of the special iterator after the match: separators after the last letter are not consumed", f.loc(f.blocks[bb]["ts"]))
+    col.floor(R, "cursor reads after a special match", n, 1)
